@@ -51,6 +51,7 @@ type Evidence struct {
 	slowest     float64
 	seedsUsed   []uint64
 	sampleRefs  []sampleRef
+	forcedOp    int
 	canaryProcs int
 	canaryKeys  int
 }
@@ -83,6 +84,9 @@ func newEvidence(tier string, seed uint64, b *Build) *Evidence {
 
 func (e *Evidence) addBatch(r *BatchResult) {
 	e.Batches++
+	if r.Batch.ForceOp {
+		e.forcedOp++
+	}
 	e.workerS += r.WallS
 	if r.WallS > e.slowest {
 		e.slowest = r.WallS
@@ -298,27 +302,28 @@ func (e *Evidence) write(path string) error {
 			"inflight_op_pairs_reached":          len(e.pairs),
 			"inflight_op_pair_space":             e.numLabels * e.numLabels,
 			"executed_operations_by_kind":        e.opCounts,
-			"canary_processes_compared":          e.canaryProcs,
-			"canary_digests_per_process":         e.canaryKeys,
-			"runs_by_strategy":                   e.byStrat,
-			"runs_by_granularity":                e.byGran,
-			"runs_by_mode":                       e.byMode,
-			"runs_by_task_count":                 tasks,
-			"ops_with_divergent_site_trace":      e.Divergent,
-			"race_reports_confined_to_load_ops":  e.LoadRaces,
-			"probe_mismatches_load_ops":          e.ProbeN,
-			"probe_examples":                     e.probeEx,
-			"simulated_time":                     "n/a (no clock, timer or deadline exists in the system under test; progress is counted in logical steps)",
-			"components_real":                    []string{"every non-test source file of github.com/pion/rtcp from the working tree (yield call inserted before each statement)", "Go runtime", "fmt/reflect/encoding/binary", "Go race detector (race build)"},
-			"components_stub":                    []string{"seeded scheduler (token hand-off invisible to the race detector)", "transport and mailboxes (drop/duplicate/delay/reorder/corrupt)", "caller roles: producers, receivers, consumers, private-history tasks"},
-			"components_absent":                  []string{"clock/timers", "disk", "sockets (the library has none)"},
-			"go_version":                         e.build.GoVer,
-			"build_s":                            e.build.BuildS,
-			"op_only_scheduling":                 e.build.Desc.OpOnly,
-			"blocking_sync_in_tree":              e.build.Desc.BlockingSync,
-			"non_sentinel_package_vars":          e.build.Desc.PkgVars,
-			"worker_cpu_s":                       e.workerS,
-			"slowest_batch_s":                    e.slowest,
+			"batches_repeated_operation_granular_after_stuck_simulation": e.forcedOp,
+			"canary_processes_compared":                                  e.canaryProcs,
+			"canary_digests_per_process":                                 e.canaryKeys,
+			"runs_by_strategy":                                           e.byStrat,
+			"runs_by_granularity":                                        e.byGran,
+			"runs_by_mode":                                               e.byMode,
+			"runs_by_task_count":                                         tasks,
+			"ops_with_divergent_site_trace":                              e.Divergent,
+			"race_reports_confined_to_load_ops":                          e.LoadRaces,
+			"probe_mismatches_load_ops":                                  e.ProbeN,
+			"probe_examples":                                             e.probeEx,
+			"simulated_time":                                             "n/a (no clock, timer or deadline exists in the system under test; progress is counted in logical steps)",
+			"components_real":                                            []string{"every non-test source file of github.com/pion/rtcp from the working tree (yield call inserted before each statement)", "Go runtime", "fmt/reflect/encoding/binary", "Go race detector (race build)"},
+			"components_stub":                                            []string{"seeded scheduler (token hand-off invisible to the race detector)", "transport and mailboxes (drop/duplicate/delay/reorder/corrupt)", "caller roles: producers, receivers, consumers, private-history tasks"},
+			"components_absent":                                          []string{"clock/timers", "disk", "sockets (the library has none)"},
+			"go_version":                                                 e.build.GoVer,
+			"build_s":                                                    e.build.BuildS,
+			"op_only_scheduling":                                         e.build.Desc.OpOnly,
+			"blocking_sync_in_tree":                                      e.build.Desc.BlockingSync,
+			"non_sentinel_package_vars":                                  e.build.Desc.PkgVars,
+			"worker_cpu_s":                                               e.workerS,
+			"slowest_batch_s":                                            e.slowest,
 		},
 		"assumptions": []string{
 			"sampling, not enumeration: a clean batch is evidence, not proof",
